@@ -76,6 +76,11 @@ def generate(rng, i, tier):
         # passes through a match expression.  Serial run forms only: in a breadth-first run the narrowed line of one member
         # is what the next member receives (projection is outside C08's statement), so a fault-free run does not exist there.
         method = rng.choice(ops.SERIAL)
+        if rng.random() < 0.4:
+            # ... except for a group of ONE member, where nobody else can receive the narrowed line
+            k = 1
+            scans = scans[:1]
+            method = rng.choice(ops.SERIAL + ["collect_by_line", "collect_by_line"])  # (the non-collecting by-line forms never narrow a line)
     vm = None
     if kind == "vmode_raise":
         policy = rng.choice([["collect"], ["collect", "print"], ["collect", "fail"]])
